@@ -5,6 +5,7 @@ package main
 
 import (
 	"fmt"
+	"strings"
 	"time"
 )
 
@@ -95,8 +96,24 @@ func c16ConcurrentUnits(tier string) []Unit {
 	return us
 }
 
+// c16AsyncScenarios: the async runner with a Cancel at every kind of instant (the C15 family): the
+// executor's OnDone / OnSuccess / OnFailure fire once and report what the ExecutionResult holds.
+func c16AsyncScenarios(tier string) []*Scenario {
+	var out []*Scenario
+	for _, sc := range c15Scenarios(tier) {
+		if strings.Contains(sc.Name, "cancel") && !strings.HasPrefix(sc.Name, "C15/reuse") {
+			c := *sc
+			c.Name = "C16/async" + strings.TrimPrefix(sc.Name, "C15")
+			out = append(out, &c)
+		}
+	}
+	return out
+}
+
 func init() {
 	scenarioSets["C16"] = func(tier string) []*Scenario {
-		return append(c16ConcurrentScenarios(tier), programScenarios("C16", pxPrograms(tier, "layers,events"), 1)...)
+		scs := append(c16ConcurrentScenarios(tier), hedgeTimingScenarios("C16/hedge-timing", tier, "events")...)
+		scs = append(scs, c16AsyncScenarios(tier)...)
+		return append(scs, programScenarios("C16", pxPrograms(tier, "layers,events"), 1)...)
 	}
 }
